@@ -1409,3 +1409,13 @@ M("C06-benign-trait-operand-printed-inline", "C06", "src/cppparser/cppExpression
   "    if (_u._type_trait._arg != nullptr) {\n      out << \", \";\n      _u._type_trait._arg->output(out, indent_level, scope, false);\n    }\n",
   "    if (_u._type_trait._arg != nullptr) {\n      out << \", \" << *_u._type_trait._arg;\n    }\n",
   benign=True)
+
+# ---------------------------------------------------------------- R06.11 (F-C06i)
+M("C06-sign-joined-to-operand", "C06", "src/cppparser/cppExpression.cxx",
+  "        out << sign;\n        if (!operand_str.empty() && operand_str[0] == sign) {\n          out << ' ';\n        }\n        out << operand_str;",
+  "        out << sign;\n        _u._op._op1->output(out, indent_level, scope, false);",
+  expect="R06.11|output|")
+M("C06-benign-sign-parenthesised", "C06", "src/cppparser/cppExpression.cxx",
+  "        out << sign;\n        if (!operand_str.empty() && operand_str[0] == sign) {\n          out << ' ';\n        }\n        out << operand_str;",
+  "        out << \"(\" << sign << \" \";\n        _u._op._op1->output(out, indent_level, scope, false);\n        out << \")\";",
+  benign=True)
